@@ -1,9 +1,9 @@
 #!/bin/bash
-# usage: harmcheck.sh <patch.diff> <id>
+# usage: harmcheck.sh <patch.diff> <id> [only these properties, space separated]
 # Applies a behaviour-preserving patch to a scratch copy of /repo's working tree and runs the quick
 # check of every property that has a contract in a touched package. Prints PASS or FALSE-ALARM lines.
 set -u
-P=$1; ID=$2
+P=$1; ID=$2; ONLY=${3:-}
 export GOFLAGS=-mod=mod GOPROXY=off GOSUMDB=off GOTOOLCHAIN=local
 R=/tmp/harmrepo-$ID; O=/tmp/harmout-$ID
 rm -rf $R $O && mkdir -p $R $O && rsync -a --exclude .git /repo/ $R/ && (cd $R && patch -s -p1 < $P) || { echo "$ID: patch does not apply"; rm -rf $R $O; exit 2; }
@@ -12,6 +12,7 @@ dirs=$(grep '^+++ b/' $P | sed 's|^+++ b/||' | xargs -n1 dirname | sort -u)
 props=$(for d in $dirs; do grep -h '^//@' /repo/$d/zz_verif_contracts.go 2>/dev/null | grep -ow 'C[0-9][0-9]'; done | sort -u)
 claimed=$(python3 -c "import json; print(' '.join(c['property_id'] for c in json.load(open('/verif/MANIFEST.json'))['checks']))")
 for p in $props; do
+  if [ -n "$ONLY" ]; then case " $ONLY " in *" $p "*) ;; *) continue;; esac; fi
   case " $claimed " in *" $p "*) ;; *) continue;; esac
   out=$(cd /verif && bin/gocv check --property $p --repo $R --out $O 2>&1)
   if echo "$out" | grep -q '^VIOLATION'; then
